@@ -379,14 +379,14 @@ META = {
 
 
 # ------------------------------------------------------------------ C10.image: every row `ls` prints in a whole image is addressable, nothing else is
-def h_image(fmt: int, n: int, i0: int, i1: int, i2: int, i3: int, pp: int = 0) -> int:
+def h_image(fmt: int, n: int, i0: int, i1: int, i2: int, i3: int, pp: int = 0, lvl: int = 0) -> int:
     """
-    pre: 0 <= fmt <= 2 and 2 <= n <= 4 and 0 <= i0 <= 27 and 0 <= i1 <= 27 and 0 <= i2 <= 27 and 0 <= i3 <= 27 and 0 <= pp <= 1
+    pre: 0 <= fmt <= 2 and 2 <= n <= 4 and 0 <= i0 <= 27 and 0 <= i1 <= 27 and 0 <= i2 <= 27 and 0 <= i3 <= 27 and 0 <= pp <= 1 and 0 <= lvl <= 3
     post: _ == 1
     """
     CNT[0] += 1
     from vf.util import conc, untraced
-    fmt, n, pp = conc(fmt, 0, 2), conc(n, 2, 4), conc(pp, 0, 1)
+    fmt, n, pp, lvl = conc(fmt, 0, 2), conc(n, 2, 4), conc(pp, 0, 1), conc(lvl, 0, 3)
     idx = [conc(i, 0, 27) for i in (i0, i1, i2, i3)[:n]]
     with untraced():
         from vf import nameimg as N
@@ -395,16 +395,16 @@ def h_image(fmt: int, n: int, i0: int, i1: int, i2: int, i3: int, pp: int = 0) -
         if any(i >= len(table) for i in idx):
             return 1
         names = [table[i] for i in idx]
-        if pp == 1 and fmt != 1:
-            return 1
+        if (pp == 1 and (fmt != 1 or lvl != 0)) or (lvl > 0 and fmt == 2) or (lvl in (1, 2) and fmt == 0):
+            return 1                                     # combinations that do not exist
         # Roland: the performance lists its programs next to the samples they play; pp == 1 names the program like the LAST sample
-        img, d, _prefix = N.build(fmt, names, patch_name=names[-1]) if pp == 1 else N.build(fmt, names)
+        img, d, _prefix = N.build(fmt, names, patch_name=names[-1]) if pp == 1 else N.build(fmt, names, level=lvl)
         image = N.open_image(img)
         rows = N.listing_names(c16._do(image, ("ls", d))[1])
         shown = [nm for nm, _t in rows]
         if len(set(shown)) != len(shown):
             return 0                                     # sibling names pairwise distinct
-        leaf = "Track" if fmt == 2 else "Sample"
+        leaf = ("Track" if fmt == 2 else "Sample", "Performance", "Performance", "Volume")[lvl]
         if len([1 for _nm, t in rows if leaf in t]) != n:
             return 0                                     # every sample / track of the directory is listed
         sep = "/" if d else ""
@@ -415,10 +415,10 @@ def h_image(fmt: int, n: int, i0: int, i1: int, i2: int, i3: int, pp: int = 0) -
                 continue                                 # a blank printed name is exempt
             for vi, variant in enumerate((D + nm, "  " + D + nm + " ", D + nm + "/", D.replace("/", "\\") + nm, (d + " / " + nm) if d else (" " + nm + " / "))):
                 text = c16._do(image, ("ls", variant))[1]
-                if "was not found" in text or not text.split("\n")[0].startswith(nm):
+                if "was not found" in text or (lvl == 0 and not text.split("\n")[0].startswith(nm)):
                     return 0                             # the printed name does not resolve / resolves to something shown under another name
                 if leaf in typ:
-                    who = N.item_of_info(fmt, text, n)
+                    who = N.item_of_info(fmt, text, n) if lvl == 0 else N.dir_of_listing(text, n)
                     if who is None:
                         return 0
                     if vi == 0:
@@ -464,6 +464,6 @@ def obligations(tier, seed):
                         sym="entry counts per level, value width", bound="<= 3 entries per level, depth <= 3", stubs=[]))
     obs.append(dict(name="C10.action", module="vf.props.c10", func="h_action", extra_pre=[], timeout=60, runs=RUNS, sym="found / not found", bound="both", stubs=["stub image"]))
     from vf.props import c06 as _c06
-    for o in _c06.image_obligations("C10.image", "vf.props.c10", tier, dup=True, cdda=True):
+    for o in _c06.image_obligations("C10.image", "vf.props.c10", tier, dup=True, cdda=True, levels=True):
         obs.append(o)
     return obs
